@@ -22,7 +22,7 @@ def cases(rng, tier):
             for m in dns.malformations(b, marks, rng, budget=40):
                 out.append("REPARSE " + (m.hex() or "-"))
     # messages beyond 16 KiB whose late names repeat (re-serialisation must not emit unusable pointers)
-    for p in pktgen.big_packets(rng, 3 if tier == "quick" else 12) + pktgen.straddle_packets(rng, (1, 5, 6, 11)):
+    for p in pktgen.big_packets(rng, 3 if tier == "quick" else 12) + pktgen.straddle_packets(rng, (1, 5, 6, 11)) + pktgen.huge_packets(rng, (0, 40, 16000, 16384)):
         b, _ = dns.encode_marked(p, rng, 0)
         out.append("REPARSE " + b.hex())
     # one large RDATA of every variable-length type, up to what an RDLENGTH can announce
